@@ -935,4 +935,139 @@ Proof.
     apply same_function_pblock_overlap; auto; now apply Hwf.
 Qed.
 
+(* ------------------------------------------------------------------ *)
+(* kinetic energy (Model/DiffOp.v)                                      *)
+(* ------------------------------------------------------------------ *)
+(* one axis: int phi_a d^k/dx^k phi_b dx as the E-functional expression (C02_diffop_is_derivative_of_right) *)
+Definition dk1 (Ax Bx alpha beta : F) (k i j : nat) : F :=
+  iterop (Bop K beta) k (Sfun K Ax Bx alpha beta) i j.
+Definition Ider (o : comp) (g1 g2 : gprim) : F :=
+  dk1 (g_x g1) (g_x g2) (g_a g1) (g_a g2) (cx o) (cx (g_c g1)) (cx (g_c g2))
+  * dk1 (g_y g1) (g_y g2) (g_a g1) (g_a g2) (cy o) (cy (g_c g1)) (cy (g_c g2))
+  * dk1 (g_z g1) (g_z g2) (g_a g1) (g_a g2) (cz o) (cz (g_c g1)) (cz (g_c g2)).
+(* -1/2 int phi_a (d2/dx2 + d2/dy2 + d2/dz2) phi_b *)
+Definition Ikin (g1 g2 : gprim) : F :=
+  (- (1 / (1 + 1))) * ((Ider (2,0,0)%nat g1 g2 + Ider (0,2,0)%nat g1 g2) + Ider (0,0,2)%nat g1 g2).
+
+Lemma zip4_blk4 (f : F -> F -> F) M1 L1 M2 L2 e1 e2 :
+  zip4 f (blk4 M1 L1 M2 L2 e1) (blk4 M1 L1 M2 L2 e2)
+  = blk4 M1 L1 M2 L2 (fun ma ia mb ib => f (e1 ma ia mb ib) (e2 ma ia mb ib)).
+Proof.
+  unfold zip4, blk4. rewrite combine_mk, map_mk'. apply mk_ext; intros ma _.
+  rewrite combine_mk, map_mk'. apply mk_ext; intros ia _.
+  rewrite combine_mk, map_mk'. apply mk_ext; intros mb _.
+  rewrite combine_mk, map_mk'. apply mk_ext; intros ib _. reflexivity.
+Qed.
+
+Lemma map4_blk4 (f : F -> F) M1 L1 M2 L2 e :
+  map4 f (blk4 M1 L1 M2 L2 e) = blk4 M1 L1 M2 L2 (fun ma ia mb ib => f (e ma ia mb ib)).
+Proof.
+  unfold map4, blk4. rewrite map_mk'. apply mk_ext; intros ma _. rewrite map_mk'. apply mk_ext; intros ia _.
+  rewrite map_mk'. apply mk_ext; intros mb _. now rewrite map_mk'.
+Qed.
+
+Lemma ES_lin3 sa sb c (J1 J2 J3 : F -> F -> comp -> comp -> F) ma ia mb ib :
+  c * ((ES sa sb J1 ma ia mb ib + ES sa sb J2 ma ia mb ib) + ES sa sb J3 ma ia mb ib)
+  = ES sa sb (fun alpha beta ca cb => c * ((J1 alpha beta ca cb + J2 alpha beta ca cb) + J3 alpha beta ca cb))
+       ma ia mb ib.
+Proof.
+  unfold ES. rewrite <- !fsum_add, <- fsum_scale. apply fsum_ext_in; intros bq _.
+  set (Y := norm_prim K (s_l sb) (compi sb ib) (fst bq)). set (Z := nth mb (snd bq) 0).
+  match goal with |- c * ((?S1 * Y * Z + ?S2 * Y * Z) + ?S3 * Y * Z) = ?R * Y * Z =>
+    transitivity ((c * ((S1 + S2) + S3)) * Y * Z); [ring|] end.
+  f_equal. f_equal. rewrite <- !fsum_add, <- fsum_scale. apply fsum_ext_in; intros ap _. ring.
+Qed.
+
+Section KineticKernel.
+Variables (sa sb : shell F).
+Hypothesis H2 : 1 + 1 <> 0.
+Hypothesis Hoka : comps_ok sa.
+Hypothesis Hokb : comps_ok sb.
+Hypothesis Hexp : exps_ok sa sb.
+
+Definition Jd (o : comp) (alpha beta : F) (ca cb : comp) : F :=
+  prim3 K (dtable K (s_x sa) (s_x sb) alpha beta (s_l sa) (s_l sb) 2,
+           dtable K (s_y sa) (s_y sb) alpha beta (s_l sa) (s_l sb) 2,
+           dtable K (s_z sa) (s_z sb) alpha beta (s_l sa) (s_l sb) 2) o ca cb.
+Definition Jkin (alpha beta : F) (ca cb : comp) : F :=
+  (- (1 / (1 + 1))) * ((Jd (2,0,0)%nat alpha beta ca cb + Jd (0,2,0)%nat alpha beta ca cb)
+                       + Jd (0,0,2)%nat alpha beta ca cb).
+
+Lemma diffop_block_pfJ :
+  diffop_block K [(2,0,0); (0,2,0); (0,0,2)]%nat sa sb
+  = [block_of K sa sb (pfJ sa sb (Jd (2,0,0)%nat)); block_of K sa sb (pfJ sa sb (Jd (0,2,0)%nat));
+     block_of K sa sb (pfJ sa sb (Jd (0,0,2)%nat))].
+Proof.
+  unfold diffop_block. cbv zeta. change (omax [(2,0,0); (0,2,0); (0,0,2)]%nat) with 2%nat. cbn [map].
+  assert (E : forall o, block_of K sa sb (fun ca cb => map (map (fun t => prim3 K t o ca cb)) (dtabs K 2 sa sb))
+                        = block_of K sa sb (pfJ sa sb (Jd o))).
+  { intros o. apply block_of_ext. intros ca cb. unfold dtabs, pfJ. rewrite map_map. apply map_ext.
+    intros beta. now rewrite map_map. }
+  now rewrite !E.
+Qed.
+
+Lemma kinetic_block_blk4 :
+  kinetic_block K sa sb = blk4 (nseg sa) (ncomp sa) (nseg sb) (ncomp sb) (ES sa sb Jkin).
+Proof.
+  unfold kinetic_block. rewrite diffop_block_pfJ, !block_of_pfJ, !zip4_blk4, map4_blk4.
+  apply blk4_ext. intros ma ia mb ib _ _ _ _. apply ES_lin3.
+Qed.
+
+Lemma Jd_spec o alpha beta ia ib :
+  (cx o <= 2)%nat -> (cy o <= 2)%nat -> (cz o <= 2)%nat ->
+  In alpha (s_exps sa) -> In beta (s_exps sb) -> (ia < ncomp sa)%nat -> (ib < ncomp sb)%nat ->
+  Jd o alpha beta (compi sa ia) (compi sb ib) = Ider o (gp sa alpha ia) (gp sb beta ib).
+Proof.
+  intros Ox Oy Oz Ha Hb Hia Hib. unfold Jd, Ider, gp, dk1. cbn [g_x g_y g_z g_a g_c].
+  destruct Hoka as [_ Hla]. destruct Hokb as [_ Hlb].
+  pose proof (Hla _ (compi_in sa ia Hia)) as Ca. pose proof (Hlb _ (compi_in sb ib Hib)) as Cb.
+  destruct (compi sa ia) as [[ax ay] az]. destruct (compi sb ib) as [[bx by_] bz].
+  destruct o as [[ox oy] oz]. cbn [cx cy cz fst snd] in *.
+  unfold prim3. rewrite Hapx.
+  pose proof (Hexp alpha beta Ha Hb) as Hp.
+  rewrite (diffop_slice_is_deriv_b K Kf (s_x sa) (s_x sb) alpha beta (s_l sa) (s_l sb) 2 Hp H2
+             ox bx ax Ox (Cb 0%nat) (Ca 0%nat)).
+  rewrite (diffop_slice_is_deriv_b K Kf (s_y sa) (s_y sb) alpha beta (s_l sa) (s_l sb) 2 Hp H2
+             oy by_ ay Oy (Cb 1%nat) (Ca 1%nat)).
+  rewrite (diffop_slice_is_deriv_b K Kf (s_z sa) (s_z sb) alpha beta (s_l sa) (s_l sb) 2 Hp H2
+             oz bz az Oz (Cb 2%nat) (Ca 2%nat)).
+  reflexivity.
+Qed.
+
+Lemma Jkin_spec alpha beta ia ib :
+  In alpha (s_exps sa) -> In beta (s_exps sb) -> (ia < ncomp sa)%nat -> (ib < ncomp sb)%nat ->
+  Jkin alpha beta (compi sa ia) (compi sb ib) = Ikin (gp sa alpha ia) (gp sb beta ib).
+Proof.
+  intros Ha Hb Hia Hib. unfold Jkin, Ikin.
+  rewrite !Jd_spec by (auto; cbn [cx cy cz fst snd]; lia). reflexivity.
+Qed.
+End KineticKernel.
+
+Theorem same_function_pblock_kinetic sa sb :
+  1 + 1 <> 0 -> comps_ok sa -> comps_ok sb -> exps_ok sa sb ->
+  pblockF (kinetic_block K) (prep K sa) (prep K sb) = outer (pair_spec Ikin) (descr sa) (descr sb).
+Proof.
+  intros H2 Hoka Hokb Hexp. unfold pblock, prep. cbn [p_shell p_norm p_T].
+  apply (processed_block_descr sa sb (Jkin sa sb) Ikin).
+  - intros alpha beta ia ib Ha Hb Hia Hib. now apply Jkin_spec.
+  - exact Hoka.
+  - apply kinetic_block_blk4.
+Qed.
+
+(* kinetic_energy_integral: evaluated blocks i <= j are the pairing tables of (bf_i, bf_j) with the
+   primitive pairing Ikin = E-functional of  -1/2 phi_a Laplacian(phi_b); the blocks below the diagonal are
+   their transposes (base_two_symm.py:171-181).  (The table over the whole of descr_basis, as for the
+   overlap, needs the symmetry Ikin(a,b) = Ikin(b,a), i.e. integration by parts on both sides: see
+   same_function_kinetic below.) *)
+Theorem same_function_kinetic_blocks (basis : list (shell F)) :
+  1 + 1 <> 0 -> Forall comps_ok basis ->
+  (forall sa sb, In sa basis -> In sb basis -> exps_ok sa sb) ->
+  kinetic_integral K basis None
+  = two_symm_blocks 0 (length basis) (fun i j =>
+      outer (pair_spec Ikin) (descr (nth i basis dshell)) (descr (nth j basis dshell))).
+Proof.
+  intros H2 Hok Hexp. unfold kinetic_integral. apply two_symm_of_blocks.
+  intros sa sb Ha Hb. rewrite Forall_forall in Hok. apply same_function_pblock_kinetic; auto.
+Qed.
+
 End P.
